@@ -275,38 +275,39 @@ def invalidateCreating (s : State) (ks : List Oid) : State := ks.foldl uncreate 
 def tpcCleanup (s : State) : State :=
   { s with needsToJoin := true, registered := [], creating := [] }
 
+/-- `_invalidate_creating()` without argument: the connection's own `_creating`, which is reset -/
+def invalidateOwnCreating (s : State) : State :=
+  { invalidateCreating s s.creating.keys with creating := [] }
+
+/-- `self._cache.invalidate(self._modified)` -/
+def invalidateModified (s : State) : State := invalidateAll s s.modified
+
+/-- `self._storage = self._normal_storage; self._savepoint_storage = None` -/
+def dropTmp (s : State) : State := { s with sp := none }
+
 /-- `_abort_savepoint` -/
 def abortSavepoint (s : State) : State :=
   match s.sp with
   | none => s
-  | some t =>
-    let s := invalidateCreating s t.creating.keys
-    let s := { s with sp := none }
-    invalidateAll s t.index.keys
+  | some t => invalidateAll (dropTmp (invalidateCreating s t.creating.keys)) t.index.keys
 
 /-- `Connection.abort` -/
 def connAbort (s : State) : State :=
-  let s := abortObjs s
-  let s := abortSavepoint s
-  let s := invalidateCreating s s.creating.keys
-  tpcCleanup { s with creating := [] }
+  tpcCleanup (invalidateOwnCreating (abortSavepoint (abortObjs s)))
 
 /-- the `while self._added` loop of `tpc_abort` (`popitem`, then disown) -/
 def drainAdded (s : State) : State :=
   let s' := s.added.foldl (fun (s : State) (p : Oid × ObjId) => disown { s with added := s.added.del p.1 } p.2) s
   { s' with added := [] }
 
+/-- `self._storage.tpc_abort(transaction)` -/
+def storageAbort (s : State) : State := { s with staged := [] }
+
 /-- `Connection.tpc_abort` (a `KeyError` — logged and swallowed by `transaction._cleanup` — when
     `tpc_begin` was never called for this transaction) -/
 def connTpcAbort (s : State) : State :=
   if !s.begun then s
-  else
-    let s := abortSavepoint s
-    let s := { s with staged := [] }
-    let s := invalidateAll s s.modified
-    let s := invalidateCreating s s.creating.keys
-    let s := drainAdded { s with creating := [] }
-    tpcCleanup s
+  else tpcCleanup (drainAdded (invalidateOwnCreating (invalidateModified (storageAbort (abortSavepoint s)))))
 
 /-! ### transaction boundaries -/
 
@@ -588,16 +589,21 @@ def txnSavepoint (bound : Nat) (s : State) : State × Out :=
       (cleanup false r.1, .failed e)
     | none => ({ r.1 with sps := r.1.sps ++ [spState r.1] }, .ok)
 
+/-- `self._registered_objects = []` -/
+def clearRegistered (s : State) : State := { s with registered := [] }
+
+/-- `src.reset(*state)` -/
+def resetTmp (s : State) (t : TmpStore) (p : Nat) (idx : Map Nat) (cr : Map Bool) : State :=
+  { s with sp := some (t.reset p idx cr) }
+
 /-- `_rollback_savepoint(state)` -/
 def rollbackSavepoint (s : State) (p : Nat) (idx : Map Nat) (cr : Map Bool) : State :=
-  let s := abortObjs s
-  let s := { s with registered := [] }
+  let s := clearRegistered (abortObjs s)
   match s.sp with
   | none => s
   | some t =>
-    let s := invalidateCreating s (t.creating.keys.filter fun k => !cr.has k)
-    let s := { s with sp := some (t.reset p idx cr) }
-    invalidateAll s t.index.keys
+    invalidateAll (resetTmp (invalidateCreating s (t.creating.keys.filter fun k => !cr.has k)) t p idx cr)
+      t.index.keys
 
 def invalidateAfter (n : Nat) (sps : List SpEntry) : List SpEntry :=
   sps.take (n + 1) ++ (sps.drop (n + 1)).map fun _ => .invalid
